@@ -73,6 +73,8 @@ class State:
         self.ctx = None
         self.cur_exc = None
         self.ghost = {}
+        self.alloc_refs = []        # (ref, 'list' | class name) allocated explicitly in this activation
+        self.opaque_alloc = False   # a callee allocated objects we cannot name
 
     def fork(self, label=None):
         s = State()
@@ -83,6 +85,8 @@ class State:
         s.ctx = self.ctx
         s.cur_exc = self.cur_exc
         s.ghost = dict(self.ghost)
+        s.alloc_refs = list(self.alloc_refs)
+        s.opaque_alloc = self.opaque_alloc
         if label is not None:
             s.path.append(label)
         return s
@@ -172,6 +176,7 @@ class Engine:
         self.paths_ended = []
         self.bound_vars = set()
         self.side_goals = []
+        self.frame_axioms = {}
 
     # ============================================================ schema helpers
     def mro(self, cls):
@@ -307,9 +312,10 @@ class Engine:
                     if d.get('optional') and a in d['optional']:
                         st.heap['%s.%s?' % (cls, a)] = fresh('%s_%s_set' % (cls, a), T.AB)
 
-    def alloc(self, st):
+    def alloc(self, st, kind='list'):
         r = st.heap['next']
         st.heap['next'] = r + 1
+        st.alloc_refs.append((r, kind))
         return r
 
     def read_attr(self, st, obj, attr):
